@@ -44,13 +44,34 @@ def catalogue_classmethod_names(repo: Repo) -> Tuple[Set[str], "NameSelector"]:
     selector of the rules that pick their subject names out of `dir(cls)` (SVA003)."""
     mod = repo.module(EXP)
     names: Set[str] = set()
+    helpers = classmethod_test_helpers(repo)
+    if not helpers:
+        raise AnalysisError("contract catalogue: no helper `(cls, name) -> isinstance(<static lookup of name on cls>, classmethod)` found (anchor `_is_classmethod` vanished)")
     for c in [n for n in ast.walk(mod.tree) if isinstance(n, ast.Call)]:
-        if call_attr(c) == "_is_classmethod" and len(c.args) == 2 and isinstance(c.args[1], ast.Constant):
+        if call_attr(c) in helpers and len(c.args) == 2 and isinstance(c.args[1], ast.Constant):
             names.add(c.args[1].value)
     selector = NameSelector(repo)
     if len(names) < 8 or not selector.scans:
         raise AnalysisError(f"contract catalogue: {len(names)} classmethod rules / {len(selector.scans)} dir()-scan selecting the names that must be classmethods found (10 names and one scan for '*_data_type' confirmed by reading)")
     return names, selector
+
+
+def classmethod_test_helpers(repo: Repo) -> Set[str]:
+    """Module-level helpers of the catalogue that answer whether a named attribute of a class is a classmethod, found by
+    what they do: two parameters (class, name), a static lookup of the name on the class (`getattr_static` / `__dict__`),
+    and an `isinstance(.., classmethod)` on what was found."""
+    out: Set[str] = set()
+    for qn, fn in repo.module(EXP).defs.items():
+        if not isinstance(fn, FuncNode) or "." in qn:
+            continue
+        ps = [a.arg for a in fn.args.args]
+        if len(ps) != 2:
+            continue
+        looks_up = any(isinstance(c, ast.Call) and (call_name(c) or "").split(".")[-1] in ("getattr_static", "getattr") and len(c.args) >= 2 and all(isinstance(a, ast.Name) for a in c.args[:2]) and [a.id for a in c.args[:2]] == ps for c in ast.walk(fn))
+        tests = any(isinstance(c, ast.Call) and isinstance(c.func, ast.Name) and c.func.id == "isinstance" and len(c.args) == 2 and dotted_name(c.args[1]) == "classmethod" for c in ast.walk(fn))
+        if looks_up and tests:
+            out.add(qn)
+    return out
 
 
 def is_classmethod_value(v: Optional[ast.AST], scope: ast.AST) -> bool:
@@ -1538,8 +1559,15 @@ def run(repo: Repo, R: Report) -> None:
                 bad = [r for r in rets if _surely_not_dict(r, f)]
                 R.check(not bad, r_meta, rel, tname, "_define_metadata returns a dict", f"`_define_metadata` of the generated class returns {('`' + ast.unparse(bad[0]) + '`') if bad and bad[0] is not None else 'nothing'}, not a dict (SVA100 error)", getattr(f, "lineno", 0))
     # the signatures the sweep factory attaches
-    bs = repo.func("semantiva/data_processors/parametric_sweep_factory.py", "_build_signature")
-    R.check(not any(isinstance(c, ast.Constant) and c.value == "context" for c in ast.walk(bs)), r_shape, "semantiva/data_processors/parametric_sweep_factory.py", "_build_signature", "attached __signature__ has no `context` parameter", "the signature attached to generated _process_logic contains `context` (SVA250 error)", bs.lineno)
+    # (found by role: the module-level functions of a template's module that construct an `inspect.Signature`)
+    n_bs = 0
+    for rel_b in sorted({t[0] for t in tmpl}):
+        for qn_b, bs in repo.module(rel_b).defs.items():
+            if isinstance(bs, FuncNode) and "." not in qn_b and any(isinstance(c, ast.Call) and (call_name(c) or "").split(".")[-1] == "Signature" for c in walk_no_nested(bs)):
+                n_bs += 1
+                R.check(not any(isinstance(c, ast.Constant) and c.value == "context" for c in ast.walk(bs)), r_shape, rel_b, qn_b, "attached __signature__ has no `context` parameter", "the signature attached to generated _process_logic contains `context` (SVA250 error)", bs.lineno)
+    if not n_bs:
+        raise AnalysisError("no module-level function that constructs the `inspect.Signature` attached to generated `_process_logic` found in the template modules (anchor `_build_signature` vanished)")
 
     # ------------------------------------------------------------------ D2
     r_md = R.rule("C16-D2-node-metadata-mirrors-processor", "node classes delegate data types to the wrapped processor: sources take NoDataType and output the processor's output type; sinks and probes take the processor's input type and pass it through; operations delegate both", 12)
@@ -1552,7 +1580,9 @@ def run(repo: Repo, R: Report) -> None:
         "_ProbeNode": ("cls.processor.input_data_type()", "cls.input_data_type()"),
         "_DataOperationContextInjectorProbeNode": (None, "cls.input_data_type()"),
     }
-    for cname, (inp, outp) in expect.items():
+    role = node_classes_by_role(repo)
+    for rname, (inp, outp) in expect.items():
+        cname = role[rname]
         for meth, want in (("input_data_type", inp), ("output_data_type", outp)):
             if want is None:
                 continue
@@ -1592,16 +1622,16 @@ def run(repo: Repo, R: Report) -> None:
 
     # ------------------------------------------------------------------ D3
     r_ck = R.rule("C16-D3-created-keys-mirror", "node get_created_keys include the wrapped processor's created keys next to any node-level key, as a list without duplicates", 5)
-    f0 = repo.func(NODES, "_DataOperationNode.get_created_keys")
-    yes, no = returns_reading(node_method(repo, "_DataOperationNode.get_created_keys"), "get_created_keys")
-    R.check(bool(yes) and not no, r_ck, NODES, "_DataOperationNode.get_created_keys", "return cls.processor.get_created_keys()", "operation nodes do not report the keys their processor creates", f0.lineno)
-    f0 = repo.func(NODES, "_ContextProcessorNode.get_created_keys")
-    f = node_method(repo, "_ContextProcessorNode.get_created_keys")
+    f0 = repo.func(NODES, role["_DataOperationNode"] + ".get_created_keys")
+    yes, no = returns_reading(node_method(repo, role["_DataOperationNode"] + ".get_created_keys"), "get_created_keys")
+    R.check(bool(yes) and not no, r_ck, NODES, role["_DataOperationNode"] + ".get_created_keys", "return cls.processor.get_created_keys()", "operation nodes do not report the keys their processor creates", f0.lineno)
+    f0 = repo.func(NODES, role["_ContextProcessorNode"] + ".get_created_keys")
+    f = node_method(repo, role["_ContextProcessorNode"] + ".get_created_keys")
     yes, no = returns_reading(f, "get_created_keys")
-    R.check(bool(yes) and all(_in_handler(f, r) for r in no), r_ck, NODES, "_ContextProcessorNode.get_created_keys", "return cls.processor.get_created_keys()", "context-processor nodes do not report the keys their processor creates", f0.lineno)
-    f0 = repo.func(NODES, "_PayloadSourceNode.get_created_keys")
-    yes, no = returns_reading(node_method(repo, "_PayloadSourceNode.get_created_keys"), "injected_context_keys")
-    R.check(bool(yes), r_ck, NODES, "_PayloadSourceNode.get_created_keys", "return cls.processor.injected_context_keys()", "payload-source nodes do not report the keys their source injects", f0.lineno)
+    R.check(bool(yes) and all(_in_handler(f, r) for r in no), r_ck, NODES, role["_ContextProcessorNode"] + ".get_created_keys", "return cls.processor.get_created_keys()", "context-processor nodes do not report the keys their processor creates", f0.lineno)
+    f0 = repo.func(NODES, role["_PayloadSourceNode"] + ".get_created_keys")
+    yes, no = returns_reading(node_method(repo, role["_PayloadSourceNode"] + ".get_created_keys"), "injected_context_keys")
+    R.check(bool(yes), r_ck, NODES, role["_PayloadSourceNode"] + ".get_created_keys", "return cls.processor.injected_context_keys()", "payload-source nodes do not report the keys their source injects", f0.lineno)
     # every node class that publishes the processor's materialised sequences at run time (reads
     # `_last_created_sequences` in its item processing) must also declare them: its get_created_keys mirrors the
     # processor's keys next to its own context key, without duplicates.  Sibling classes found by that role.
@@ -1658,12 +1688,22 @@ def run(repo: Repo, R: Report) -> None:
         R.note("no generated get_created_keys concatenates own keys with the element's keys")
     # SVA107: registry must be able to answer membership for every live generated class
     r_reg = R.rule("C16-D3-registry-coherence", "every generated component class is registered under its component_type in a per-class (not per-name) container, so the registry-coherence rule holds for all live generated classes", 2)
-    mi = repo.func(COMP, "_SemantivaComponentMeta.__init__")
+    # (found by role: the metaclass hook of the component module that files the class being created in a container)
+    meta_hooks = [(q, st) for m_, q, c_ in repo.all_classes() if m_.rel == COMP and any((dotted_name(b) or "").split(".")[-1] in ("type", "ABCMeta") for b in c_.bases)
+                  for st in c_.body if isinstance(st, FuncNode) and st.name in ("__init__", "__new__") and any(isinstance(x, ast.Call) and call_attr(x) in ("add", "append", "setdefault") for x in ast.walk(st))]
+    if len(meta_hooks) != 1:
+        raise AnalysisError(f"{len(meta_hooks)} metaclass hooks that file the class being created in a registry found in {COMP} (one confirmed by reading)")
+    mi_q, mi = meta_hooks[0][0] + "." + meta_hooks[0][1].name, meta_hooks[0][1]
     txt = ast.unparse(mi)
     keyed_by_name = any(isinstance(n, ast.Assign) and any(isinstance(t, ast.Subscript) and not isinstance(t.slice, ast.Name) or (isinstance(t, ast.Subscript) and isinstance(t.slice, ast.Name) and t.slice.id != "cat") for t in n.targets) for n in ast.walk(mi)) and ("__qualname__" in txt or "__name__" in txt)
-    R.check(not keyed_by_name and ".add(cls)" in txt or ".append(cls)" in txt, r_reg, COMP, "_SemantivaComponentMeta.__init__", "registry.setdefault(component_type, <set>).add(cls)", "classes are registered under their (shared) qualified name: generated classes with the same name evict each other and fail SVA107", mi.lineno)
-    rc = repo.func(EXP, "_r_registry_coherence")
-    R.check("get_component_registry()" in ast.unparse(rc) and "cls not in" in ast.unparse(rc), r_reg, EXP, "_r_registry_coherence", "membership test against get_component_registry()", "the coherence rule no longer consults the registry", rc.lineno)
+    R.check(not keyed_by_name and ".add(cls)" in txt or ".append(cls)" in txt, r_reg, COMP, mi_q, "registry.setdefault(component_type, <set>).add(cls)", "classes are registered under their (shared) qualified name: generated classes with the same name evict each other and fail SVA107", mi.lineno)
+    # (found by role: the check function that the catalogue registers under the published rule code SVA107)
+    coh_checks = sorted({a.id for c in ast.walk(repo.module(EXP).tree) if isinstance(c, ast.Call) and call_name(c) == "RuleSpec" and any(isinstance(x, ast.Constant) and x.value == "SVA107" for x in list(c.args[:1]) + [k.value for k in c.keywords if k.arg == "code"])
+                         for a in list(c.args) + [k.value for k in c.keywords] if isinstance(a, ast.Name) and isinstance(repo.module(EXP).defs.get(a.id), FuncNode)})
+    if len(coh_checks) != 1:
+        raise AnalysisError(f"contract catalogue: {len(coh_checks)} check functions registered under rule code SVA107 found (one confirmed by reading)")
+    rc = repo.module(EXP).defs[coh_checks[0]]
+    R.check("get_component_registry()" in ast.unparse(rc) and "cls not in" in ast.unparse(rc), r_reg, EXP, coh_checks[0], "membership test against get_component_registry()", "the coherence rule no longer consults the registry", rc.lineno)
 
     _round3(repo, R, tmpl)
     _round4(repo, R, tmpl)
@@ -1678,7 +1718,10 @@ def _round3(repo: Repo, R: Report, tmpl) -> None:
 
     # ------------------------------------------------------------------ SVA250 must not reach adapters that mirror a source/sink signature
     r_app = R.rule("C16-D1-sva250-exempts-mirrored-signature", "a generated class whose `_process_logic.__signature__` mirrors a method of the wrapped IO class (whose `context` parameter the framework supports and forwards) is outside the applicability test of SVA250 in the catalogue: evaluated on the template's facts (component_type it declares, names along its MRO), one of the rule's early exits is taken", 2)
-    sva_src = repo.func(EXP, "_r_process_logic_no_context")
+    sva_cands = [q for q in catalogue_checks(repo) if {"_process_logic", "context"} <= {c.value for c in ast.walk(repo.module(EXP).defs[q]) if isinstance(c, ast.Constant) and isinstance(c.value, str)}]
+    if len(sva_cands) != 1:
+        raise AnalysisError(f"contract catalogue: {len(sva_cands)} registered checks that inspect `_process_logic` for a `context` parameter found (one confirmed by reading: SVA250)")
+    sva_src = repo.module(EXP).defs[sva_cands[0]]
     sva = normalize(repo, repo.module(EXP), sva_src, copyprop="all")
     _attach_parents(sva)
     sva_params = _params(sva)
@@ -1743,7 +1786,7 @@ def _round3(repo: Repo, R: Report, tmpl) -> None:
                 if applies is None:
                     raise AnalysisError(f"cannot decide whether SVA250 applies to the {kind} adapter of {rel}:{tname}: " + "; ".join(seen))
                 R.check(applies is False, r_app, rel, f"{tname} [{kind}]", f"setattr(_process_logic, '__signature__', <signature of {kind}.{method}>)",
-                        f"the adapter generated for a {kind} is a {'/'.join(bases)} subclass that declares component_type `{ctype}` and publishes the parameters of `{kind}.{method}` as the signature of `_process_logic`; the wrapped method may take `context` (for sources the factory forwards the observer context to it), but `{EXP}:_r_process_logic_no_context` applies SVA250 to this class ({'; '.join(seen)}): the generated processor class of every such configuration gets an error-level diagnostic", getattr(st, "lineno", 0))
+                        f"the adapter generated for a {kind} is a {'/'.join(bases)} subclass that declares component_type `{ctype}` and publishes the parameters of `{kind}.{method}` as the signature of `_process_logic`; the wrapped method may take `context` (for sources the factory forwards the observer context to it), but `{EXP}:{sva_cands[0]}` applies SVA250 to this class ({'; '.join(seen)}): the generated processor class of every such configuration gets an error-level diagnostic", getattr(st, "lineno", 0))
 
     # ------------------------------------------------------------------ declared types == what the accessors answer
     r_decl = R.rule("C16-D2-declared-types-match-accessors", "for every node class, the `input_data_type` / `output_data_type` entries that its (own or inherited, super()-chained) `_define_metadata` writes denote the same type as the class's own `input_data_type()` / `output_data_type()` accessors: the entry calls the accessor on `cls`, or spells the expression the accessor of *this* class returns", 10)
@@ -2903,6 +2946,30 @@ def node_component_types(repo: Repo, nodes_mod) -> List[Tuple[str, ast.ClassDef,
         kinds = {v.value for v, _st in metadata_entries(f, "wraps_component_type") if isinstance(v, ast.Constant) and isinstance(v.value, str)}
         if len(ctypes) == 1:
             out.append((qn, c, next(iter(ctypes)), next(iter(kinds)) if len(kinds) == 1 else None))
+    return out
+
+
+def node_classes_by_role(repo: Repo) -> Dict[str, str]:
+    """{role: class name in nodes.py} for the node base classes the delegation rules speak about, found by what they
+    declare instead of by their names: the class whose `_define_metadata` fixes component_type `<Role>` plays `_<Role>`
+    (the literal is what inspection and the catalogue see, the class name is private), and the probe base class is the
+    common direct base of the classes that declare to wrap a DataProbe."""
+    nodes_mod = repo.module(NODES)
+    kinds = node_component_types(repo, nodes_mod)
+    out: Dict[str, str] = {}
+    for qn, _c, ctype, _k in kinds:
+        if ("_" + ctype) in out:
+            raise AnalysisError(f"{NODES}: two node classes fix component_type `{ctype}` ({out['_' + ctype]}, {qn})")
+        out["_" + ctype] = qn
+    probe_bases = [{(dotted_name(b) or "?").split(".")[-1] for b in c.bases} for _qn, c, _ct, k in kinds if k == "DataProbe"]
+    common = set.intersection(*probe_bases) if probe_bases else set()
+    common = {b for b in common if isinstance(nodes_mod.defs.get(b), ast.ClassDef)}
+    if len(common) == 1:
+        out["_ProbeNode"] = next(iter(common))
+    need = ("_PayloadSourceNode", "_DataSourceNode", "_PayloadSinkNode", "_DataSinkNode", "_DataOperationNode", "_ProbeNode", "_DataOperationContextInjectorProbeNode", "_ContextProcessorNode")
+    missing = [r for r in need if r not in out]
+    if missing:
+        raise AnalysisError(f"{NODES}: no node class found for the roles {missing} (component_type literal of `_define_metadata` / common base of the DataProbe-wrapping classes): anchors of the delegation rules vanished")
     return out
 
 
